@@ -737,7 +737,12 @@ fn run_typed<R: Raw>(scn: &Scenario, opts: &RunOpts) -> Outcome {
             events_after_deadline: 0,
             samples_total: 0,
             queries_per_motion: {
-                let l = inner.get_longest_valid_segment_length();
+                let mut l = inner.get_longest_valid_segment_length();
+                for p in &scn.problems {
+                    if let Some(Ok(i2)) = p.space.as_ref().map(|sp| R::build(sp)) {
+                        l = l.min(i2.get_longest_valid_segment_length());
+                    }
+                }
                 let dmax = 2.0 * scn.param("ext").unwrap_or(10.0);
                 if l > 0.0 && l.is_finite() { (dmax / (0.1 * l)).ceil() } else { 1e9 }
             },
@@ -767,6 +772,17 @@ fn run_typed<R: Raw>(scn: &Scenario, opts: &RunOpts) -> Outcome {
     })));
 
     let space = Arc::new(SimSpace::<R> { inner: inner.clone(), lay: lay.clone() });
+    // a problem may come with its own space object (same layout, other bounds / resolution)
+    let mut pspaces: Vec<(R, Arc<SimSpace<R>>)> = Vec::new();
+    for p in &scn.problems {
+        match &p.space {
+            None => pspaces.push((inner.clone(), space.clone())),
+            Some(sp) => match R::build(sp) {
+                Ok(i2) if layout(sp) == lay => pspaces.push((i2.clone(), Arc::new(SimSpace::<R> { inner: i2, lay: lay.clone() }))),
+                _ => pspaces.push((inner.clone(), space.clone())),
+            },
+        }
+    }
     let mut planner: AnyPlanner<R> = AnyPlanner::new(&scn.planner);
     let mut calls: Vec<CallOut> = Vec::new();
     let mut dead = false;
@@ -775,10 +791,10 @@ fn run_typed<R: Raw>(scn: &Scenario, opts: &RunOpts) -> Outcome {
     let make_pd = |pi: usize| -> Arc<Pd<R>> {
         let p = &scn.problems[pi];
         Arc::new(ProblemDefinition {
-            space: space.clone(),
+            space: pspaces[pi].1.clone(),
             start_states: p.starts.iter().map(|s| R::dec(&lay, s)).collect(),
             goal: Arc::new(SimGoal::<R> {
-                inner: inner.clone(),
+                inner: pspaces[pi].0.clone(),
                 lay: lay.clone(),
                 target: R::dec(&lay, &p.goal.target),
                 radius: p.goal.radius,
